@@ -1,23 +1,17 @@
-"""dev helper: tools/dev_seed_meta.py <Cxx> <m> <caught_by text>  - archives /tmp/mut5_cxx/_deliver/<m> into seeded/Cxx-<m>/ and
-writes meta.json from the agent's notes.json plus what was confirmed here (demo exit codes are read from /tmp/demo_Cxx_<m>.rc)"""
-import json, os, shutil, sys
-P, M, caught = sys.argv[1], sys.argv[2], sys.argv[3]
-src = f"/tmp/mut5_{P.lower()}/_deliver/{M}"
-dst = f"/verif/seeded/{P}-{M}"
-if os.path.isdir(src):
-    os.makedirs(dst, exist_ok=True)
-    for f in os.listdir(src):
-        if f.startswith("out_") or f == "target":
-            continue
-        s = os.path.join(src, f)
-        (shutil.copytree(s, os.path.join(dst, f), dirs_exist_ok=True) if os.path.isdir(s) else shutil.copy(s, dst))
+"""dev helper: tools/dev_seed_meta.py <Cxx-mN> <caught_by text>  - writes seeded/<id>/meta.json from the agent's notes.json plus what was
+confirmed here (demo exit codes are read from /tmp/demo_Cxx_mN.rc)"""
+import json, os, sys
+ID, caught = sys.argv[1], sys.argv[2]
+P, M = ID.split("-")
+dst = f"/verif/seeded/{ID}"
 notes = json.load(open(os.path.join(dst, "notes.json")))
-rc = open(f"/tmp/demo_{P}_{M}.rc").read().split() if os.path.exists(f"/tmp/demo_{P}_{M}.rc") else []
+rcf = f"/tmp/demo_{P}_{M}.rc"
+rc = open(rcf).read().split() if os.path.exists(rcf) else []
 meta = {"property": P, "summary": notes.get("summary"), "files_changed": notes.get("files_changed"),
         "needs_to_manifest": notes.get("needs_to_manifest"), "tests_run": notes.get("tests_run"), "demo": notes.get("demo"),
-        "confirmed_by_me": {"demo": "bash _deliver/%s/demo.sh in the agent's scratch worktree: %s" % (M, " ".join(rc)),
+        "confirmed_by_me": {"demo": "bash _deliver/%s/demo.sh in the agent's scratch worktree with / without the patch: %s" % (M, " ".join(rc)),
                             "suite": "agent reported 613/613 passing with the patch applied alone: " + str(notes.get("tests_run"))[:300],
-                            "checks_run": "tools/mutbench.sh <patch> <Cxx> (committed /verif against a patched worktree of /repo HEAD)",
+                            "checks_run": "tools/mutbench.sh seeded/%s/patch.diff <Cxx> (committed /verif against a patched worktree of /repo HEAD)" % ID,
                             "caught_by": caught}}
 json.dump(meta, open(os.path.join(dst, "meta.json"), "w"), indent=1)
-print(dst, sorted(os.listdir(dst)))
+print(ID, "ok")
